@@ -12,7 +12,8 @@ struct LawCase {
 }
 
 fn laws(c: &LawCase) -> vcore::CaseResult {
-    match c.alg % 4 {
+    match c.alg % 5 {
+        4 => check_laws::<AFlip>(&c.raws, c.m1, c.m2)?,
         0 => check_laws::<AFree>(&c.raws, c.m1, c.m2)?,
         1 => check_laws::<AHash>(&c.raws, c.m1, c.m2)?,
         2 => check_laws::<AAssignSum>(&c.raws, c.m1, c.m2)?,
@@ -25,7 +26,7 @@ fn main() {
     let mut ctx = Ctx::init("C01");
     ctx.rule(
         "Cases are operation histories (constructor, then set / range-modify / ask / lower_bound / lower_bound_rev / debug / rebuild) \
-         on a Segtree instantiated with one of 14 item algebras (built-ins, nested Combinators, and harness items with a free, \
+         on a Segtree instantiated with one of 15 item algebras (built-ins, nested Combinators, a flip/count item whose modifier type is zero-sized, and harness items with a free, \
          non-commutative merge and non-commuting modifiers), interpreted in lock-step with a plain Vec model; every ask must equal the \
          in-order fold of the model, and after the history every element and the whole range are compared. Sizes: 1..=130 biased to 2^k-1, 2^k, 2^k+1, plus a class of large trees (131..2^12 quick, ..2^15 thorough) with short histories, plus constructors fed with items handed out by the tree itself (ask(i,i) results). Non-trivial = a range modify \
          covering a strict sub-range (l>0 or r<n-1) is later observed by an ask or set overlapping it with no rebuild in between. \
@@ -68,7 +69,7 @@ fn main() {
         }
         ctx.class("combinator-from-default-checks", n);
     }
-    let law_strat = (0u8..4, prop::collection::vec(any::<u32>(), 3..12), any::<u32>(), any::<u32>())
+    let law_strat = (0u8..5, prop::collection::vec(any::<u32>(), 3..12), any::<u32>(), any::<u32>())
         .prop_map(|(alg, raws, m1, m2)| LawCase { alg, raws, m1, m2 });
     ctx.prop("harness-item-laws", "law", ctx.n(2_000, 20_000), law_strat, laws);
 
@@ -88,7 +89,7 @@ fn main() {
     // E1: generated histories per algebra
     let per_alg = ctx.n(3_000, 100_000);
     let max_ops = ctx.n(60, 400) as usize;
-    for alg in 0..14u8 {
+    for alg in 0..15u8 {
         let name = format!("histories-{}", ALG_NAMES[alg as usize]);
         ctx.prop(&name, "segtree-history", per_alg, case(Some(alg), max_ops), |c| run_case(c, Focus::Fold));
     }
